@@ -7,7 +7,9 @@ import (
 	"encoding/base64"
 	"fmt"
 	"math/big"
+	"sort"
 
+	"github.com/ethereum/go-ethereum/common"
 	"github.com/shutter-network/shutter/shlib/shcrypto"
 )
 
@@ -235,6 +237,81 @@ func SameOutcome(a, b *RunResult) []string {
 			}
 		}
 	}
+	return bad
+}
+
+// messageShape describes a key generation message without its secret or random parts.
+func (res *RunResult) messageShape(t *Tx) string {
+	idx := func(bs [][]byte) string {
+		out := []int{}
+		for _, b := range bs {
+			a := common.BytesToAddress(b)
+			j := -1
+			for _, k := range res.Keypers {
+				if k.Address == a {
+					j = k.Index
+				}
+			}
+			out = append(out, j)
+		}
+		sort.Ints(out)
+		return fmt.Sprint(out)
+	}
+	m := t.Msg
+	switch {
+	case m == nil:
+		return ""
+	case m.GetPolyCommitment() != nil:
+		return fmt.Sprintf("polycommitment eon=%d coefficients=%d", m.GetPolyCommitment().Eon, len(m.GetPolyCommitment().Gammas))
+	case m.GetPolyEval() != nil:
+		return fmt.Sprintf("polyeval eon=%d to=%s", m.GetPolyEval().Eon, idx(m.GetPolyEval().Receivers))
+	case m.GetAccusation() != nil:
+		return fmt.Sprintf("accusation eon=%d accused=%s", m.GetAccusation().Eon, idx(m.GetAccusation().Accused))
+	case m.GetApology() != nil:
+		return fmt.Sprintf("apology eon=%d accusers=%s", m.GetApology().Eon, idx(m.GetApology().Accusers))
+	case m.GetDkgResult() != nil:
+		return fmt.Sprintf("dkgresult eon=%d success=%v", m.GetDkgResult().Eon, m.GetDkgResult().Success)
+	}
+	return ""
+}
+
+// MessageShapes lists, per keyper, the distinct key generation messages of it that the chain executed.
+func (res *RunResult) MessageShapes() map[int]map[string]bool {
+	out := map[int]map[string]bool{}
+	for _, b := range res.Blocks {
+		for _, t := range b.Txs {
+			if t.Deliver == nil || t.Deliver.Code != 0 || t.SignerIndex < 0 {
+				continue
+			}
+			if sh := res.messageShape(t); sh != "" {
+				if out[t.SignerIndex] == nil {
+					out[t.SignerIndex] = map[string]bool{}
+				}
+				out[t.SignerIndex][sh] = true
+			}
+		}
+	}
+	return out
+}
+
+// SameMessages compares what every keyper got executed on the chain in two runs (a message sent twice counts
+// once): nothing of the first run may be missing in the second and nothing new may appear.
+func SameMessages(a, b *RunResult) []string {
+	var bad []string
+	sa, sb := a.MessageShapes(), b.MessageShapes()
+	for i := range a.Keypers {
+		for sh := range sa[i] {
+			if !sb[i][sh] {
+				bad = append(bad, fmt.Sprintf("keyper %d: %q was executed in the crash-free run and is missing", i, sh))
+			}
+		}
+		for sh := range sb[i] {
+			if !sa[i][sh] {
+				bad = append(bad, fmt.Sprintf("keyper %d: %q is executed although the crash-free run has no such message", i, sh))
+			}
+		}
+	}
+	sort.Strings(bad)
 	return bad
 }
 
